@@ -77,6 +77,7 @@ class LimitedRateLimiter(RateLimiter):
 
     def __init__(self, limit_kbps: int):
         super().__init__(limit_bps=limit_kbps * 1024)
+        self._waiters: asyncio.Lock = asyncio.Lock()
 
     def is_empty(self) -> bool:
         return self.bucket < self.MIN_BUCKET_SIZE
@@ -96,13 +97,18 @@ class LimitedRateLimiter(RateLimiter):
         return self.is_empty()
 
     async def take_tokens(self) -> int:
-        while True:
-            is_empty = self.refill()
-            if not is_empty:
-                self.bucket -= self.MIN_BUCKET_SIZE
-                return self.MIN_BUCKET_SIZE
+        # Waiters are served in the order they arrived: when every waiter polls
+        # the bucket by itself the one whose poll comes right after another's
+        # only ever sees a refill that truncates to 0 and can starve for as
+        # long as the other connection keeps asking
+        async with self._waiters:
+            while True:
+                is_empty = self.refill()
+                if not is_empty:
+                    self.bucket -= self.MIN_BUCKET_SIZE
+                    return self.MIN_BUCKET_SIZE
 
-            await asyncio.sleep(INTERVAL)
+                await asyncio.sleep(INTERVAL)
 
     def add_tokens(self, token_amount: int):
         self.bucket += token_amount
